@@ -203,6 +203,28 @@ def _is_reused_from_ancestor(
     return False
 
 
+def _is_defined_in_another_class(
+    namespace: MutableMapping[str, Any], func: Callable[..., Any]
+) -> bool:
+    """
+    Check whether ``func`` has been defined in the body of another class than the one which is being created.
+
+    Such a function is re-used as-is in the new class, be it under a different name
+    (*e.g.*, ``some_func = Base.another_func``) or in an unrelated hierarchy (``some_func = Unrelated.some_func``).
+    It is shared with the class which defined it, checker and all, so its contracts must not be merged with the ones
+    of the new bases: the contracts of the defining class must not change just because another class has been created.
+    """
+    qualname = getattr(func, "__qualname__", None)
+    class_qualname = namespace.get("__qualname__", None)
+    if not isinstance(qualname, str) or not isinstance(class_qualname, str):
+        return False
+
+    # Only the classes and the functions open a scope in a qualified name, and the functions are followed
+    # by ``<locals>``.
+    scope, _, _ = qualname.rpartition(".")
+    return scope != "" and not scope.endswith("<locals>") and scope != class_qualname
+
+
 def _decorate_namespace_function(
     bases: List[type], namespace: MutableMapping[str, Any], key: str
 ) -> None:
@@ -219,6 +241,9 @@ def _decorate_namespace_function(
         raise NotImplementedError("Unexpected value for a function: {}".format(value))
 
     if _is_reused_from_ancestor(bases=bases, key=key, func=func):
+        return
+
+    if _is_defined_in_another_class(namespace=namespace, func=func):
         return
 
     # Collect preconditions and postconditions of the function
@@ -330,6 +355,9 @@ def _decorate_namespace_property(
             continue
 
         if _is_reused_from_ancestor(bases=bases, key=key, func=func):
+            continue
+
+        if _is_defined_in_another_class(namespace=namespace, func=func):
             continue
 
         # Collect the preconditions and postconditions from bases
